@@ -296,6 +296,8 @@ class NamedQubit:
                 from_size = int(alias_from.size)
             except JaqalError:
                 return
+            if not isinstance(alias_index, (int, float)):
+                raise JaqalError(f"Qubit index {alias_index} is not a number.")
             if isinstance(alias_index, float) and not alias_index.is_integer():
                 raise JaqalError(f"Qubit index {alias_index} is not an integer.")
             if alias_index < 0 or alias_index >= from_size:
